@@ -27,7 +27,9 @@ CLAIMED = {
     "C02": ("3 C02", "normal equations R C_off,off = C_on,off entry by entry for a fully symbolic symmetric covariance matrix (off-axis slopes <= 4 "
             "quick / 6 thorough) under det != 0; duplicate on-axis sensor => R = [I 0]; the method wrapper uses n_subaps[0] and the current matrix for "
             "any sequence of requests; end-to-end through the real, symbolically executed covariance builder for a duplicated sensor "
-            "(3 sensors x 1 sub-aperture, 2 sensors x row mask). NOT claimed: singular matrices, svd_conditioning > 0 (LAPACK truncated SVD)",
+            "(3 sensors x 1 sub-aperture, 2 sensors x row mask); for svd_conditioning > 0 (symbolic): exactly one pseudo-inverse is taken, of C_off,off, "
+            "with the user's conditioning as the RELATIVE singular-value threshold (numpy's rcond / rtol) and no absolute one, and R = C_on,off . that "
+            "pseudo-inverse (the truncated SVD itself is an opaque function). NOT claimed: singular matrices at conditioning 0, what LAPACK's truncated SVD returns",
             "pinv(rcond=0) = adjugate*dinv with dinv*det == 1; optimality from the normal equations is the textbook step."),
     "C03": ("3 C03", "EUF mode (floating-point operations uninterpreted => term identity = bit identity): the multi-process build is the same term "
             "array as the single-process build for every explored execution order of the per-pair tasks (all permutations up to 4 tasks, "
